@@ -533,6 +533,8 @@ func (f *Formatter) formatErrorStatement(stmt *ast.ErrorStatement) string {
 	// status code is arbitrary ("error;" is valid)
 	if stmt.Code != nil {
 		buf.WriteString(" " + f.formatExpression(stmt.Code).String())
+	} else if v := f.formatComment(stmt.Infix, "", 0); v != "" {
+		buf.WriteString(" " + v)
 	}
 	// argument is arbitrary
 	if stmt.Argument != nil {
